@@ -334,6 +334,14 @@ def contracts(env):
 
 
 def extra(rep, tier, seed, budget):
+    from pyvc import cli as _cli
+    from specs import c01 as _m01
+    _e01 = _m01.base_env()
+    for _c in _m01.contracts(_e01):
+        if 'BranchCascade.validate' in _c.label:
+            _c.label = _c.label + ' [C20 cascade validation used by create_branch]'
+            _cli.handle_function(rep, _m01, _e01, _c, budget, _cli.load_lock().get('C20', {}))
+    rep.trusted.extend(_e01.trusted)
     # create_branch orders development branches with DevelopmentBranch.__lt__ (contract of C09); rebuild re-submits
     # QueueCollection.queued_prs (bounded: clause d of bounded/c05_queue.py)
     from pyvc import cli as _cli
